@@ -324,6 +324,8 @@ type ctxKey struct{}
 
 type stackKey string
 
+var c12ClientNotTransparent []string
+
 func runC12(c *cli.Ctx) error {
 	r := emit.NewRng(c.Seed)
 	// ---- stream codes: every status code in a window + random large ones
@@ -523,15 +525,25 @@ func runC12(c *cli.Ctx) error {
 		cv := prometheus.NewCounterVec(prometheus.CounterOpts{Name: "c"}, []string{"code", "method", "who"})
 		hv := prometheus.NewHistogramVec(prometheus.HistogramOpts{Name: "h"}, []string{"code", "who"})
 		g := prometheus.NewGauge(prometheus.GaugeOpts{Name: "g"})
+		// a failing transport may hand back a response alongside its error (redirect-policy / retry style);
+		// the middlewares must pass both through untouched
+		failWithResp := fail && r.Bool()
+		var innerResp *http.Response
+		var innerErr error
 		rt := rtFunc(func(req *http.Request) (*http.Response, error) {
-			if fail {
-				return nil, errors.New("boom")
+			if fail && !failWithResp {
+				innerErr = errors.New("boom")
+				return nil, innerErr
 			}
 			resp := &http.Response{StatusCode: status, Body: io.NopCloser(strings.NewReader("")), Header: http.Header{}}
 			if !reqNil {
 				resp.Request = req
 			}
-			return resp, nil
+			innerResp = resp
+			if failWithResp {
+				innerErr = errors.New("boom, with a response")
+			}
+			return resp, innerErr
 		})
 		opt := promhttp.WithLabelFromCtx("who", func(ctx context.Context) string {
 			if v, ok := ctx.Value(ctxKey{}).(string); ok {
@@ -562,8 +574,25 @@ func runC12(c *cli.Ctx) error {
 					panicked = true
 				}
 			}()
-			_, rerr = chain.RoundTrip(req)
+			var gotResp *http.Response
+			gotResp, rerr = chain.RoundTrip(req)
+			if gotResp != innerResp || rerr != innerErr {
+				c12ClientNotTransparent = append(c12ClientNotTransparent, fmt.Sprintf("case %d: transport returned (response %v, error %v), the caller of the instrumented chain got (response %v, error %v)", i, innerResp != nil, innerErr, gotResp != nil, rerr))
+			}
 		}()
+		// each client middleware alone, too
+		if !reqNil || fail {
+			for k, one := range []http.RoundTripper{
+				promhttp.InstrumentRoundTripperInFlight(prometheus.NewGauge(prometheus.GaugeOpts{Name: "g1"}), rt),
+				promhttp.InstrumentRoundTripperCounter(prometheus.NewCounterVec(prometheus.CounterOpts{Name: "c1"}, []string{"code"}), rt),
+				promhttp.InstrumentRoundTripperDuration(prometheus.NewHistogramVec(prometheus.HistogramOpts{Name: "h1"}, []string{"method"}), rt),
+			} {
+				gotResp, gotErr := one.RoundTrip(req)
+				if gotResp != innerResp || gotErr != innerErr {
+					c12ClientNotTransparent = append(c12ClientNotTransparent, fmt.Sprintf("case %d, middleware %d alone (0 in-flight, 1 counter, 2 duration): transport returned (response %v, error %v), the caller got (response %v, error %v)", i, k, innerResp != nil, innerErr, gotResp != nil, gotErr))
+				}
+			}
+		}
 		count, code, meth, who := 0, "", "", ""
 		for _, mm := range c12Collect(cv) {
 			count += int(mm.Counter.GetValue())
@@ -577,7 +606,10 @@ func runC12(c *cli.Ctx) error {
 		g.Write(&gm)
 		w.Add(emit.C(5, emit.S(m), emit.SL(cextra), emit.I(status), emit.B(fail), emit.B(reqNil),
 			emit.Tup(emit.I(count), emit.S(code), emit.S(meth), emit.S(who), emit.B(panicked), emit.B(rerr != nil), emit.I(dcount), emit.I(int(gm.Gauge.GetValue())))),
-			!fail, fmt.Sprintf("transport-fails:%v", fail), fmt.Sprintf("response.Request-nil:%v", reqNil))
+			!fail, fmt.Sprintf("transport-fails:%v", fail), fmt.Sprintf("fails-with-response:%v", failWithResp), fmt.Sprintf("response.Request-nil:%v", reqNil))
+	}
+	if len(c12ClientNotTransparent) > 0 {
+		w.Extra["direct_failures"] = []map[string]interface{}{{"index": -1, "what": fmt.Sprintf("%d round trips were not passed through untouched; first: %s", len(c12ClientNotTransparent), c12ClientNotTransparent[0])}}
 	}
 	if err := w.Flush(); err != nil {
 		return err
